@@ -268,6 +268,14 @@ func (w *world) onPeer(n *xmltree.Node) {
 	if pl == nil {
 		return
 	}
+	// Account for the delayed replies before anybody can learn that the
+	// request was seen: settle() must not send the sentinel while one of them
+	// is still to come.
+	for _, rs := range pl.Replies {
+		if rs.When != "now" {
+			w.late.Add(1)
+		}
+	}
 	pl.seenOnce.Do(func() { close(pl.seen) })
 	for _, rs := range pl.Replies {
 		rs := rs
@@ -310,7 +318,6 @@ func (w *world) onPeer(n *xmltree.Node) {
 		case "now":
 			send()
 		default:
-			w.late.Add(1)
 			go func() {
 				defer w.late.Add(-1)
 				if rs.When == "after-cancel" {
